@@ -8,11 +8,13 @@ def run(prop, path):
     wd = os.path.join(vlib.outdir(prop), "replay")
     os.makedirs(wd, exist_ok=True)
     binp = vlib.build_harness(wd, driver=rec["driver"])
-    scheds = [{"name": "replay", "scenario": rec["scenario"], "labels": rec["labels"]}]
+    # Go's select picks among several ready cases at random (not seedable): the same schedule is run
+    # 30 times and the violation counts as reproduced if any of them shows it
+    scheds = [{"name": "replay%d" % i, "scenario": rec["scenario"], "labels": rec["labels"]} for i in range(30)]
     traces, st = vlib.run_harness(binp, rec["driver"], wd, scheds=scheds, n=0, seed=1, shards=1, opt=rec.get("opt", ""), tag="replay")
     viol, consumed, total, _ = vlib.validate_traces(wd, rec["specdirs"], rec["monitor"], traces, deque=rec.get("deque", False))
     names = sorted({n for v in viol for n in v["names"]})
-    print("replayed %d labels, schedule followed to the end: %s; conditions violated: %s" % (len(rec["labels"]), st["schedules_followed"] == 1, names))
+    print("replayed %d labels, schedule followed to the end: %s; conditions violated: %s" % (len(rec["labels"]), st["schedules_followed"] >= 1, names))
     if rec.get("name") in names:
         print("VIOLATION property=%s replay=%s" % (prop, path))
         return 1
